@@ -502,7 +502,44 @@ func execListener(c *core.Case, lc *listenCase) {
 			c.Count("listener_closed_while_open_pending", 1)
 		}
 		var cerr error
-		c.Guard("ibb.Listener.Close", func() { cerr = lw.ln.Close() })
+		closed := make(chan struct{})
+		go func() {
+			defer close(closed)
+			c.Guard("ibb.Listener.Close", func() { cerr = lw.ln.Close() })
+		}()
+		select {
+		case <-closed:
+		case <-time.After(grace):
+			// Close waits for something.  The only other actor is the handler,
+			// which holds the <open/> until the listener is closed or somebody
+			// accepts: if both are parked (three samples), neither will ever move.
+			var inClose, inOpen *stall.Parked
+			for _, p := range stall.Check(func(fn string) bool {
+				return strings.HasPrefix(fn, "ibb.(*Listener).Close") || strings.HasPrefix(fn, "ibb.handleOpen")
+			}, 0) {
+				p := p
+				if _, old := lw.base[p.ID]; old {
+					continue
+				}
+				if strings.HasPrefix(p.Func, "ibb.(*Listener).Close") {
+					inClose = &p
+				} else {
+					inOpen = &p
+				}
+			}
+			if inClose != nil && inOpen != nil {
+				c.Violate(stall.Key(*inClose), "Listener.Close was called while the handler held an <open/> for Accept; Close never returns and the handler never lets go (nobody accepts, nothing else can happen):\n%s\n%s", inClose.Stack, inOpen.Stack)
+				lw.dead = true
+				return
+			}
+			select {
+			case <-closed:
+			case <-time.After(hardLimit):
+				c.Inconclusive("Listener.Close did not return and the stall rule does not apply")
+				lw.dead = true
+				return
+			}
+		}
 		if cerr != nil {
 			c.Notef("Close returned %v", cerr)
 		}
